@@ -192,7 +192,12 @@ async def realise(ctx, sq, n, scen, rnd):
     o = await peers.Origin(rec, responder, stall=1.2 if big else 0.0, rcvbuf=8192 if big else None).start()
     stream, cands, desc = build(par, n, o.port, rnd)
     c = peers.Client(rec, sq.port, name='c%d' % n)
-    await c.open()
+    try:
+        await c.open()
+    except OSError:
+        # the proxy does not listen (any more): nothing was forwarded for this stream; the liveness test after the batch decides
+        await o.stop()
+        return {'ev': [], 'lens': [len(cd) for cd in cands], 'par': par, 'desc': desc, 'client_statuses': [], 'incomplete_at_origin': 0, 'refused': True}
     try:
         if big or slow:
             await asyncio.wait_for(c.send(stream), 20)
